@@ -4,16 +4,15 @@ import json, subprocess
 from pathlib import Path
 V = Path(__file__).resolve().parent.parent
 
-# id -> (category, technique, text, note, design_ref)
-CHECKS = {
- 'C01': ('proof', 'Lean 4 theorems (model = lattice definition) + correspondence model/implementation',
-         'Theorems about the executable Lean model of erode/dilate (border rule, saturating arithmetic, scatter = gather '
-         'for star-shaped elements, fast path = generic) for all shapes/dtypes/elements; the model is tied to the freshly '
-         'rebuilt code by a differential run (exhaustive boolean scope in the thorough tier, boundary-dense random cases).',
-         'Trusted: Lean kernel, axioms propext/Classical.choice/Quot.sound, the hand-written model of _morph.cpp tied by '
-         'correspondence only, numpy. Heights non-negative; sizes < 2^31.', 'DESIGN.md section 5 C01'),
-}
-PENDING = {}
+def load_checks():
+    out = {}
+    for f in sorted((V / 'harness' / 'props' / 'meta').glob('C*.json')):
+        d = json.loads(f.read_text())
+        out[f.stem] = (d['category'], d['technique'], d['text'], d['note'], d.get('design_ref', 'DESIGN.md section 5 ' + f.stem))
+    return out
+
+CHECKS = load_checks()
+PENDING = json.loads((V / 'harness' / 'props' / 'meta' / 'not_applicable.json').read_text()) if (V / 'harness' / 'props' / 'meta' / 'not_applicable.json').exists() else {}
 
 def main():
     props = [json.loads(l) for l in (V / 'properties.jsonl').read_text().splitlines() if l.strip()]
